@@ -19,6 +19,14 @@ def run(prop, tier, seed):
         return R.lib_property(prop, tier, seed)
     if prop == "C20":
         return R.param_property(prop, tier, seed)
+    if prop == "C02":
+        from . import evalrun
+
+        return evalrun.eval_property(prop, tier, seed, R.REPO)
+    if prop in ("C12", "C13"):
+        from . import loadrun
+
+        return loadrun.load_property(prop, tier, seed, R.REPO)
     raise SystemExit("unknown property %s" % prop)
 
 
